@@ -81,7 +81,7 @@ LEVEL_TEXT = ("Machine-checked proof (Coq) about executable models of Deficiency
               "builder and the undirected-input conversion are proved to refine the label-level model. The models are compared with the Python code "
               "(complex list, arcs, classes, all integers and flags, class deficiencies, result / error code and every stored field after every call, raw attributed "
               "graphs) on every run over an exhaustive small scope, random, textbook, large and adversarial networks; numpy's float ranks are compared with the certified exact ranks per input.")
-LEVEL_NOTE = ("Universal: all 41 model theorems and checker soundness. Per input: float ranks vs certified ranks; networkx component routines vs "
+LEVEL_NOTE = ("Universal: all 43 model theorems and checker soundness. Per input: float ranks vs certified ranks; networkx component routines vs "
               "the model's closures; float part of nondegeneracy_test (oracle inputs). Trusted: Coq kernel, MathComp, models + encoders. "
               "networkx/numpy results are compared, not trusted.")
 TECHNIQUE = ("Coq proof about Gallina models (stdlib lists: walk invariant, lib/Reach saturation, API state-machine invariant, identifier-level refinement; MathComp: rank of Y*Ia, kernel of the incidence "
@@ -468,6 +468,21 @@ def _dump(a):
     return [o_su, _some([int(x) for x in ld]) if ld is not None else None, o_one, o_nd]
 
 
+def _tamper(a):
+    """as_dict() promises a serialisable COPY: editing its top-level values must not reach the object."""
+    d = a.as_dict()
+    for k in list(d):
+        if isinstance(d[k], list):
+            d[k].append(99)
+        elif isinstance(d[k], dict):
+            d[k]["regular"] = "x"
+            d[k]["nullity"] = -1
+            d[k].pop("deficiency", None)
+        else:
+            d[k] = 77
+    d["extra"] = 1
+
+
 def _script(case):
     """Run the script in THIS process on shared objects.  Yields per call (name, index of the network in the edit sequence,
     hypergraph holding the truth, analyzer, result code, float argmax positions)."""
@@ -487,9 +502,14 @@ def _script(case):
     k = 0
     for s in case["script"]:
         if s[0] == "e":
-            _apply_edit(H, s[1])
-            if Xv is not H:
-                _apply_edit_bip(Xv, s[1])
+            if s[1] == ["probe", 4]:                 # the caller edits everything as_dict() returned: copies, the object must not change
+                _tamper(a)
+            elif s[1][0] == "probe":                 # non-default options / other routes on the same input object: the network is unchanged
+                _probe(Xv, s[1][1])
+            else:
+                _apply_edit(H, s[1])
+                if Xv is not H:
+                    _apply_edit_bip(Xv, s[1])
             k += 1
             continue
         res, mis = _call(a, s[1])
